@@ -29,6 +29,7 @@ class Peer(threading.Thread):
         self.s.listen(64)
         self.port = self.s.getsockname()[1]
         self.seen = []
+        self.extra = b""   # further field lines for the responses to non-CONNECT requests
 
     def run(self):
         while True:
@@ -53,7 +54,7 @@ class Peer(threading.Thread):
                 if head.startswith(b"CONNECT"):
                     c.sendall(b"HTTP/1.1 200 OK\r\n\r\n")
                 else:
-                    c.sendall(b"HTTP/1.1 200 OK\r\nContent-Length: 2\r\nContent-Type: text/plain\r\n\r\nok")
+                    c.sendall(b"HTTP/1.1 200 OK\r\nContent-Length: 2\r\nContent-Type: text/plain\r\n" + self.extra + b"\r\nok")
         except OSError:
             pass
         finally:
